@@ -126,6 +126,13 @@ def handlers : List (String × Handler) := [
     let m : MeasEnc Int := { values := ← parseInts (← j.getObjVal? "values"), indices := ← parseOptInts (j.getObjValD "indices"),
                              numberOfValues := none }
     pure (exceptToJson optValsToJson (getValues m (← getNat j "n")))),
+  ("getMeasurements", fun j => do
+    let items ← (← getArr j "items").toList.mapM (fun it => do
+      let m : MeasEnc Int := { values := ← parseInts (← it.getObjVal? "values"), indices := ← parseOptInts (it.getObjValD "indices"),
+                               numberOfValues := none }
+      pure ((← getNat it "name"), m))
+    let r := getMeasurements (fun (a b : Nat) => a == b) items (← getNat j "n") (← optNat (j.getObjValD "name"))
+    pure (exceptToJson (fun (cols : List (List (Option Int))) => Json.arr (cols.map optValsToJson).toArray) r)),
   ("getGroup", fun j => do
     let r := getGroup (← parseGroups (← j.getObjVal? "groups")) (← parseOptInt (j.getObjValD "number")) (← optStr (j.getObjValD "uid"))
     pure (exceptToJson (fun (g : GroupInfo) => (g.number : Json)) r)),
